@@ -827,21 +827,21 @@ type verifC21Run struct {
 	limitHits   int
 	curDir      int
 
-	produced []*verifC21Rec // all records
-	data     []*verifC21Rec // count > 0
-	bySeq    map[uint64]int
-	nextSeq  uint64
-	bytes    int
-	huge     int
+	produced                               []*verifC21Rec // all records
+	data                                   []*verifC21Rec // count > 0
+	bySeq                                  map[uint64]int
+	nextSeq                                uint64
+	bytes                                  int
+	huge                                   int
 	tAudit, tClone, tSetup, tSteps, tFinal time.Duration
-	mon      verifC21Mon
-	obsMu    sync.Mutex
-	obsCond  *sync.Cond
-	obsQ     []*verifC21Rec
-	obsStop  bool
-	obsDone  chan struct{}
-	under    atomic.Int64
-	wrErrs   int
+	mon                                    verifC21Mon
+	obsMu                                  sync.Mutex
+	obsCond                                *sync.Cond
+	obsQ                                   []*verifC21Rec
+	obsStop                                bool
+	obsDone                                chan struct{}
+	under                                  atomic.Int64
+	wrErrs                                 int
 
 	closeStarted bool
 	closeDone    chan struct{}
@@ -850,14 +850,15 @@ type verifC21Run struct {
 	monitorCh   chan chan struct{}
 	monitorDone chan struct{}
 
-	clones     int
-	maxSegs    int
-	dupTails   int
-	deduped    int
-	violated   bool
-	inconcl    bool
-	stepNow    int
-	segsClosed atomic.Int64
+	clones      int
+	maxSegs     int
+	maxDataSegs int
+	dupTails    int
+	deduped     int
+	violated    bool
+	inconcl     bool
+	stepNow     int
+	segsClosed  atomic.Int64
 }
 
 func verifC21WaitCh(ch <-chan struct{}, d time.Duration) bool {
@@ -1108,7 +1109,7 @@ func (s *verifC21Run) audit(fs vfs.FS, kind string, pct int, mustIdx int, wantAl
 			"audit": kind, "survival_pct": pct, "acked_max_index": mustIdx, "want_all": wantAll,
 			"produced": prod, "readback_seqs": seqs, "reader_end": te, "segments": rb.segs,
 			"close_err": fmt.Sprint(s.closeErr),
-			"note":     "schedules are explored by the Go scheduler; the script fixes the step order only",
+			"note":      "schedules are explored by the Go scheduler; the script fixes the step order only",
 		}
 	}
 	if err != nil {
@@ -1157,6 +1158,9 @@ func (s *verifC21Run) audit(fs vfs.FS, kind string, pct int, mustIdx int, wantAl
 		}
 	}
 	s.r.Max("max_segments_with_data_in_one_audit", int64(nonEmpty))
+	if nonEmpty > s.maxDataSegs {
+		s.maxDataSegs = nonEmpty
+	}
 	if nonEmpty >= 2 {
 		s.r.Count("audits_with_2plus_data_segments", 1)
 	}
@@ -1349,7 +1353,7 @@ func TestVerifC21(t *testing.T) {
 		"injected fault / stall was actually hit by a file operation; distinct key = step list + segment/dup-tail/dedup counts")
 	r.Assume("crash model = vfs.MemFS.CrashClone (synced prefix of every file and synced directory entries survive; unsynced 4KiB blocks / entries survive independently)")
 	r.Assume("schedules are produced by the Go scheduler plus injected stalls/delays; they are explored, not enumerated")
-	n := vcommon.Scale(240, 8000)
+	n := vcommon.Scale(240, 6000)
 	// Many short-lived large objects (log blocks, reader buffers, queue
 	// buffers): a lazier GC saves a lot of race-detector bookkeeping.
 	defer debug.SetGCPercent(debug.SetGCPercent(600))
@@ -1403,11 +1407,14 @@ func TestVerifC21(t *testing.T) {
 			r.Count("unref_underflow", u)
 			r.Note("case %d: RefCount.Unref called more often than Ref (%d times)", i, u)
 		}
-		if s.maxSegs >= 2 && (s.dupTails > 0 || s.deduped > 0) {
+		if s.maxDataSegs >= 2 && (s.dupTails > 0 || s.deduped > 0) {
 			r.Count("scripts_with_duplicated_tail", 1)
 		}
-		if s.maxSegs >= 2 || blockedCalls > 0 || failedCalls > 0 {
-			r.Distinct(strings.Join(s.stepStrings(), " "), s.maxSegs, s.dupTails, s.deduped, s.closeErr != nil)
+		if s.maxDataSegs >= 2 {
+			r.Count("scripts_with_2plus_data_segments", 1)
+		}
+		if s.maxDataSegs >= 2 || blockedCalls > 0 || failedCalls > 0 {
+			r.Distinct(strings.Join(s.stepStrings(), " "), s.maxDataSegs, s.dupTails, s.deduped, s.closeErr != nil)
 		}
 		if r.WantSample() && s.dupTails > 0 {
 			r.Sample(map[string]any{"case": i, "params": p, "steps": strings.Join(s.stepStrings(), " "),
